@@ -36,7 +36,16 @@ type MessageFuture struct {
 func NewMessageFuture(message RpcMessage) *MessageFuture {
 	return &MessageFuture{
 		ID:   message.ID,
-		Done: make(chan struct{}),
+		Done: make(chan struct{}, 1),
+	}
+}
+
+// Complete wakes the waiter of the future. It never blocks: a second or late
+// completion, which nobody waits for any more, is dropped.
+func (f *MessageFuture) Complete() {
+	select {
+	case f.Done <- struct{}{}:
+	default:
 	}
 }
 
